@@ -91,6 +91,21 @@ PROPS['C12'] = _search('C12',
     'for each position an uncancelled control run, then cancellation at poll index 0,1,2,3,5,8,...,987 of a counting context (every n is a node entry or store guard where the search polls), each followed by a clean search on the same table and compared with a clean search on a fresh table.',
     'Halted run: reports ErrHalted and no score, board getters before = after, no table write after the first cancelled poll; follow-up search on the same table returns what the control returns; model search with the cancellation oracle compared exactly (nodes, polls).')
 
+PROPS['C01'].update({
+    'coq_targets': ['Properties/C01.vo', 'Impl/ImplBoard.vo'],
+    'obligation_files': ['Properties/C01.v', 'Impl/ImplBoard.v'],
+    'level': 'proof',
+    'level_text': 'Proof: for every legal position (wf_b) and both colours the set {(from, to, promotion)} of moves accepted by the bit-level generator (pseudo_legal_moves filtered by pos_move, on the tables dumped from the running code) equals the legal-move set of the mailbox FIDE specification - castling incl. attacked-square conditions, en passant incl. discovered checks, four promotions, check evasions - with no duplicates; every move record (kind, moving piece, promotion, captured piece) equals the one the rules determine. Closed under sequences of legal moves by C02. The model is compared with Go on generated positions (multiset of moves + legality flags) and Go is compared with the extracted specification (sets, metadata, perft).',
+    'level_note': 'Hypotheses: wf_b p turn and turn in {0,1}. Positions with a castling right but king/rook off the home squares, or an inconsistent e.p. square, are outside the property (not legal positions). Trusted: Coq kernel; model of Go integer/array semantics (Model/Bits.v), exercised by the correspondence; harness.',
+})
+PROPS['C02'].update({
+    'coq_targets': ['Properties/C02.vo', 'Impl/ImplBoard.vo'],
+    'obligation_files': ['Properties/C02.v', 'Impl/ImplBoard.v'],
+    'level': 'proof',
+    'level_text': 'Proof for all nine move types: for every legal position and every pseudo-legal move that pos_move accepts, the abstraction of the successor equals apply_move of the specification (placement incl. rook hop, e.p. pawn removal, promotion; castling rights dropped exactly for king/rook origin or destination home squares; e.p. target iff double step), the representation invariant (all 18 words consistent: per-piece/per-colour sets, occupancy, three rotated words) is preserved, and the successor is again a legal position - hence for all sequences of legal moves (induction). Under the invariant, square lookup and attack queries are functions of the abstract board. Model vs Go: every word of every successor; Go vs specification through abs_pos.',
+    'level_note': 'Position moved from is untouched: pos_move is a pure function in the model; on the Go side the harness re-dumps the origin after every move. Trusted: Coq kernel; model of Go shifts/array indexing; harness.',
+})
+
 # Every listed property is claimed; reasons would go here otherwise.
 NOT_APPLICABLE = [
     {'property_id': pid, 'reason': 'check not built yet in this session (work in progress; see DESIGN.md section 9)'}
